@@ -631,8 +631,21 @@ func (se *SpecEnv) callExpr(x *SCall) (Value, types.Type) {
 			}
 			return Or(Eq(v, IntLit(0)), Not(Select(se.ex.alive(se.old), v))), boolT
 		case "alive":
-			v, _ := se.evalTerm(x.Args[0])
+			// for a slice: its backing array is nil or allocated
+			v, t := se.evalTerm(x.Args[0])
+			if _, isSlice := types.Unalias(t).Underlying().(*types.Slice); isSlice {
+				p := vc.SlicePtr(v)
+				return Or(Eq(p, IntLit(0)), Select(se.ex.alive(se.cur), p)), boolT
+			}
 			return Select(se.ex.alive(se.cur), v), boolT
+		case "base":
+			// base(s): the backing array of slice s as an opaque reference (usable with ==, !=, nil, alive, fresh, newobj)
+			v, t := se.evalTerm(x.Args[0])
+			sl, isSlice := types.Unalias(t).Underlying().(*types.Slice)
+			if !isSlice {
+				se.fail(x, "base() of non-slice %s", t)
+			}
+			return vc.SlicePtr(v), types.NewPointer(sl.Elem())
 		case "seen":
 			// seen(k): key already produced by the map iteration of the loop at hand
 			if se.at == nil {
